@@ -126,6 +126,27 @@ impl Ka {
                 }
                 self.evs.push(json!({"e": k, "k": i, "applied": applied, "t": t}));
             }
+            // the handler closes the write half of held stream k and keeps holding it: still an active stream
+            "closeWrite" => {
+                let i = vcommon::n(c, "k") as usize;
+                let taken = self.handler().and_then(|h| h.lock().unwrap().streams.get_mut(i).and_then(|slot| slot.take()));
+                let mut done = false;
+                let applied = taken.is_some();
+                if let Some(mut st) = taken {
+                    let det = self.run.rig.det.clone();
+                    {
+                        let mut f = Box::pin(futures::AsyncWriteExt::close(&mut st));
+                        done = matches!(det.run_until_stalled(f.as_mut(), 50), Some(Ok(())));
+                    }
+                    if let Some(h) = self.handler() {
+                        h.lock().unwrap().streams[i] = Some(st);
+                    }
+                }
+                if let Some(cid) = self.run.rig.ids.conn_of(1) {
+                    self.run.behs()[0].ctl.wake_handler(cid);
+                }
+                self.evs.push(json!({"e": "closeWrite", "k": i, "applied": applied, "done": done, "t": t}));
+            }
             "poll" => {
                 self.poll();
                 self.evs.push(json!({"e": "quiescent", "t": self.t()}));
@@ -189,6 +210,42 @@ pub fn main(a: &vcommon::Args) {
                     run_sched(&mut out, &json!({"cfg": {"concurrency": 2, "idle_ms": 60}, "cmds": cmds}));
                 }
             }
+            // an idle timer armed in an earlier idle period must not survive a busy period: idle (timer armed), busy for
+            // longer than the rest of the timeout (keep-alive on / a held stream / a half-closed held stream), idle again:
+            // the connection closes no earlier than a full timeout after it became idle the second time
+            let hold: Vec<Value> = vec![json!({"c": "reqOut"}), json!({"c": "offerOut"}), json!({"c": "poll"}), json!({"c": "negotiate", "r": 0}), json!({"c": "poll"})];
+            for variant in ["ka", "stream", "halfclosed"] {
+                for first_sleep in [15u64, 40] {
+                    let mut cmds = vec![json!({"c": "ka", "v": false}), json!({"c": "poll"}), json!({"c": "sleepPoll", "ms": first_sleep})];
+                    match variant {
+                        "ka" => cmds.push(json!({"c": "ka", "v": true})),
+                        _ => cmds.extend(hold.clone()),
+                    }
+                    if variant == "halfclosed" {
+                        cmds.push(json!({"c": "closeWrite", "k": 0}));
+                    }
+                    cmds.push(json!({"c": "poll"}));
+                    cmds.push(json!({"c": "sleepPoll", "ms": 80}));
+                    match variant {
+                        "ka" => cmds.push(json!({"c": "ka", "v": false})),
+                        _ => cmds.push(json!({"c": "dropStream", "k": 0})),
+                    }
+                    cmds.push(json!({"c": "poll"}));
+                    cmds.push(json!({"c": "sleepPoll", "ms": 30}));
+                    cmds.push(json!({"c": "sleepPoll", "ms": 90}));
+                    run_sched(&mut out, &json!({"cfg": {"concurrency": 2, "idle_ms": 60}, "cmds": cmds}));
+                }
+            }
+            // zero timeout: a held stream whose write half was closed keeps the connection alive
+            for tail in [vec![], vec![json!({"c": "dropStream", "k": 0}), json!({"c": "poll"})]] {
+                let mut cmds = vec![json!({"c": "ka", "v": false})];
+                cmds.extend(hold.clone());
+                cmds.push(json!({"c": "closeWrite", "k": 0}));
+                cmds.push(json!({"c": "poll"}));
+                cmds.push(json!({"c": "poll"}));
+                cmds.extend(tail);
+                run_sched(&mut out, &json!({"cfg": {"concurrency": 2, "idle_ms": 0}, "cmds": cmds}));
+            }
             println!("runs={} events={}", out.run, out.events);
             out.finish();
         }
@@ -220,7 +277,8 @@ pub fn main(a: &vcommon::Args) {
                             json!({"c": "negotiate", "r": r.gen_range(0..nrem)})
                         }
                         61..=70 if nstreams > 0 => json!({"c": "dropStream", "k": r.gen_range(0..nstreams)}),
-                        71..=75 if nstreams > 0 => json!({"c": "ignoreKA", "k": r.gen_range(0..nstreams)}),
+                        71..=73 if nstreams > 0 => json!({"c": "ignoreKA", "k": r.gen_range(0..nstreams)}),
+                        74..=75 if nstreams > 0 => json!({"c": "closeWrite", "k": r.gen_range(0..nstreams)}),
                         76..=79 if idle > 0 => json!({"c": "sleepPoll", "ms": r.gen_range(20..=90)}),
                         _ => json!({"c": "poll"}),
                     });
